@@ -135,6 +135,31 @@ def unary_calls(d, R):
     return calls
 
 
+def keyword_calls(d):
+    """conversions with imputed coordinates given as keywords: (label, call(v, p, q)); p and q are arrays for the NumPy
+    operand (a plain scalar would be cast to float64 by _toarrays: lane limit) and that element's values for the object;
+    distinct values, so a swap of the longitudinal and temporal slots shows"""
+    if d == 2:
+        return [
+            ("to_Vector3D(z=)", lambda v, p, q: v.to_Vector3D(z=p)),
+            ("to_Vector3D(theta=)", lambda v, p, q: v.to_Vector3D(theta=q)),
+            ("to_Vector4D(z=,t=)", lambda v, p, q: v.to_Vector4D(z=p, t=q)),
+            ("to_Vector4D(eta=,tau=)", lambda v, p, q: v.to_Vector4D(eta=q, tau=p)),
+            ("to_xyzt(z=,t=)", lambda v, p, q: v.to_xyzt(z=p, t=q)),
+            ("to_rhophietatau(eta=,tau=)", lambda v, p, q: v.to_rhophietatau(eta=q, tau=p)),
+            ("to_xythetatau(theta=,tau=)", lambda v, p, q: v.to_xythetatau(theta=q, tau=p)),
+            ("to_rhophiz(z=)", lambda v, p, q: v.to_rhophiz(z=p)),
+        ]
+    if d == 3:
+        return [
+            ("to_Vector4D(t=)", lambda v, p, q: v.to_Vector4D(t=q)),
+            ("to_Vector4D(tau=)", lambda v, p, q: v.to_Vector4D(tau=p)),
+            ("to_xyzt(t=)", lambda v, p, q: v.to_xyzt(t=q)),
+            ("to_rhophietatau(tau=)", lambda v, p, q: v.to_rhophietatau(tau=p)),
+        ]
+    return []
+
+
 def f_unary(system, momentum, shape):
     d = len(system) + 1
 
@@ -162,6 +187,21 @@ def f_unary(system, momentum, shape):
             goals.append((f"{label}:shape", G.true(getattr(rn, "shape", None) == shape, f"{getattr(rn, 'shape', None)}")))
             for idx in idxs:
                 goals += compare(R, f"{label}[{idx}]", rn, call(objs[idx]), idx)
+        if d < 4:
+            P = numpy.empty(shape, dtype=object)
+            Q = numpy.empty(shape, dtype=object)
+            for idx in idxs:
+                P[idx] = R.real(f"kwp_{'_'.join(map(str, idx))}", "nonneg")
+                Q[idx] = R.real(f"kwq_{'_'.join(map(str, idx))}", "theta")
+            for label, call in keyword_calls(d):
+                try:
+                    rn = call(a, P, Q)
+                except Exception as e:
+                    goals.append((f"{label}:numpy-raised", G.true(False, f"{type(e).__name__}: {str(e)[:100]}")))
+                    continue
+                goals.append((f"{label}:shape", G.true(getattr(rn, "shape", None) == shape, f"{getattr(rn, 'shape', None)}")))
+                for idx in idxs:
+                    goals += compare(R, f"{label}[{idx}]", rn, call(objs[idx], P[idx], Q[idx]), idx)
         # integer indexing returns the object vector of that element
         for idx in idxs:
             e = a[idx]
@@ -179,6 +219,85 @@ BINARY_CALLS = {
     4: ["boost_p4", "deltaRapidityPhi"],
 }
 OPS = {"+": lambda a, b: a + b, "-": lambda a, b: a - b, "@": lambda a, b: a @ b, "==": lambda a, b: a == b, "!=": lambda a, b: a != b}
+# the NumPy function forms (C12: the operators and methods agree with numpy.equal / not_equal / isclose / allclose): array side, object side
+NP_FORMS = {
+    "numpy.equal": (lambda a, b: numpy.equal(a, b), lambda a, b: a.equal(b)),
+    "numpy.not_equal": (lambda a, b: numpy.not_equal(a, b), lambda a, b: a.not_equal(b)),
+    "numpy.isclose": (lambda a, b: numpy.isclose(a, b), lambda a, b: a.isclose(b)),
+    "numpy.isclose(swapped)": (lambda a, b: numpy.isclose(b, a), lambda a, b: b.isclose(a)),
+}
+
+
+def binary_operands(R, s1, s2, pairing, shape, m1=False, m2=True):
+    """(a, per-element object a, b, per-element object b) for a pairing nn / no / on of NumPy and object operands"""
+    idxs = list(numpy.ndindex(shape))
+    if pairing in ("nn", "no"):
+        a, acols = np_operand(R, s1, "a", shape, m1)
+        aobj = {i: obj_element(R, s1, acols, i, m1) for i in idxs}
+    else:
+        av = R.vec(s1, "a", momentum=m1, offaxis=True)
+        _, ac = lanes.stored(av)
+        a = lanes.build(lane(R)[0], s1, ac, m1)
+        aobj = {i: a for i in idxs}
+    if pairing in ("nn", "on"):
+        b, bcols = np_operand(R, s2, "b", shape, m2)
+        bobj = {i: obj_element(R, s2, bcols, i, m2) for i in idxs}
+    else:
+        bv = R.vec(s2, "b", momentum=m2, offaxis=True)
+        _, bc = lanes.stored(bv)
+        b = lanes.build(lane(R)[0], s2, bc, m2)
+        bobj = {i: b for i in idxs}
+    return a, aobj, b, bobj
+
+
+def np_form_goals(R, a, aobj, b, bobj, shape):
+    """numpy.equal / not_equal / isclose / allclose against the object-backend methods, element by element"""
+    goals = []
+    idxs = list(numpy.ndindex(shape))
+    for label, (fa, fo) in NP_FORMS.items():
+        try:
+            rn = fa(a, b)
+        except Exception as e:
+            goals.append((f"{label}:raised", G.true(False, f"{type(e).__name__}: {str(e)[:100]}")))
+            continue
+        goals.append((f"{label}:shape", G.true(getattr(rn, "shape", None) == shape, f"{getattr(rn, 'shape', None)}")))
+        for i in idxs:
+            goals += compare(R, f"{label}[{i}]", rn, fo(aobj[i], bobj[i]), i)
+    # numpy.allclose on one-element views (the reduction of a single symbolic truth value is that value)
+    i0 = idxs[0]
+    one = tuple(slice(0, 1) for _ in shape)
+    a1 = a[one] if isinstance(a, numpy.ndarray) else a
+    b1 = b[one] if isinstance(b, numpy.ndarray) else b
+    for label, fa in (("numpy.allclose", lambda: numpy.allclose(a1, b1)), ("allclose", lambda: a1.allclose(b1)), ("numpy.allclose(swapped)", lambda: numpy.allclose(b1, a1))):
+        if label == "allclose" and not isinstance(a1, numpy.ndarray):
+            continue
+        try:
+            rn = fa()
+        except core.SymbolicBranch:
+            goals.append((f"{label}:outside-lane(reduction of symbolic truth values)", G.true(True)))
+            continue
+        except Exception as e:
+            goals.append((f"{label}:raised", G.true(False, f"{type(e).__name__}: {str(e)[:100]}")))
+            continue
+        ref = bobj[i0].isclose(aobj[i0]) if "swapped" in label else aobj[i0].isclose(bobj[i0])
+        goals.append((label, G.iff(rn, ref)))
+    return goals
+
+
+def f_np_forms(s1, s2, pairing, shape, m1=False, m2=True):
+    def fn(R):
+        a, aobj, b, bobj = binary_operands(R, s1, s2, pairing, shape, m1, m2)
+        snaps = [(x, np_snapshot(x)) for x in (a, b) if isinstance(x, numpy.ndarray)]
+        goals = np_form_goals(R, a, aobj, b, bobj, shape)
+        for sym in ("==", "!="):
+            rn = OPS[sym](a, b)
+            for i in numpy.ndindex(shape):
+                goals += compare(R, f"op{sym}[{i}]", rn, OPS[sym](aobj[i], bobj[i]), i)
+        for x, s_ in snaps:
+            goals.append(("frame:array-unmodified", G.true(np_snapshot(x) == s_)))
+        return goals
+
+    return fn
 
 
 def f_binary(s1, s2, pairing, shape, m1=False, m2=True):
@@ -189,22 +308,7 @@ def f_binary(s1, s2, pairing, shape, m1=False, m2=True):
 
         goals = []
         idxs = list(numpy.ndindex(shape))
-        if pairing in ("nn", "no"):
-            a, acols = np_operand(R, s1, "a", shape, m1)
-            aobj = {i: obj_element(R, s1, acols, i, m1) for i in idxs}
-        else:
-            av = R.vec(s1, "a", momentum=m1, offaxis=True)
-            _, ac = lanes.stored(av)
-            a = lanes.build(lane(R)[0], s1, ac, m1)
-            aobj = {i: a for i in idxs}
-        if pairing in ("nn", "on"):
-            b, bcols = np_operand(R, s2, "b", shape, m2)
-            bobj = {i: obj_element(R, s2, bcols, i, m2) for i in idxs}
-        else:
-            bv = R.vec(s2, "b", momentum=m2, offaxis=True)
-            _, bc = lanes.stored(bv)
-            b = lanes.build(lane(R)[0], s2, bc, m2)
-            bobj = {i: b for i in idxs}
+        a, aobj, b, bobj = binary_operands(R, s1, s2, pairing, shape, m1, m2)
         snaps = [(x, np_snapshot(x)) for x in (a, b) if isinstance(x, numpy.ndarray)]
         names = []
         for dd in range(2, d + 1):
@@ -237,6 +341,7 @@ def f_binary(s1, s2, pairing, shape, m1=False, m2=True):
                 continue
             for i in idxs:
                 goals += compare(R, f"op{sym}[{i}]", rn, op(aobj[i], bobj[i]), i)
+        goals += np_form_goals(R, a, aobj, b, bobj, shape)
         for x, s in snaps:
             goals.append(("frame:array-unmodified", G.true(np_snapshot(x) == s)))
         return goals
